@@ -114,6 +114,7 @@
 #include "scanners.h"
 #include "stack.h"
 #include "token.h"
+#include "verif_hooks.h"
 
 
 #define print(x) d_string_append(out, x)
@@ -2190,6 +2191,7 @@ parse_citation:
 			break;
 
 		default:
+			MMD6_EVENT(MMD6_EV_UNKNOWN_TOKEN, MMD6_W_ODF, t->type);
 			fprintf(stderr, "Unknown token type: %d\n", t->type);
 			token_describe(t, source);
 			break;
